@@ -127,7 +127,12 @@ func HarnessC10SubscribeFailsOnce() {
 	r.isRunning = true
 	sub := &c10FlakySubscriber{}
 	handled := 0
-	h := r.AddNoPublisherHandler("A", "ta", sub, func(m *Message) error { handled++; return nil })
+	subName := ""
+	h := r.AddNoPublisherHandler("A", "ta", sub, func(m *Message) error {
+		handled++
+		subName = SubscriberNameFromCtx(m.Context())
+		return nil
+	})
 	ctx, cancel := context.WithCancel(context.Background())
 	defer cancel()
 	vrt.Assert(r.RunHandlers(ctx) != nil, "RunHandlers reports the Subscribe error")
@@ -140,6 +145,7 @@ func HarnessC10SubscribeFailsOnce() {
 	h.Stop()
 	<-h.Stopped()
 	vrt.Assert(handled == 1, "handled once")
+	vrt.Assert(subName == "message.c10FlakySubscriber", "the context still names the handler's own subscriber type after the retry")
 	_ = r.Close() // returns (nil, or the timeout error when the CloseTimeout timer wins against the waiter goroutine)
 	vrt.Assert(r.IsClosed(), "closed")
 }
